@@ -181,6 +181,16 @@ where
     yvals[0] + x * (yvals[1] - yvals[0])
 }
 
+/// Advance the time step of a ramp by one increment, without passing the end value.
+fn ramp_step(t_ratio: f64, increment: f64, t_ratio_end: f64) -> f64 {
+    let next = t_ratio + increment;
+    if (increment > 0.0 && next > t_ratio_end) || (increment < 0.0 && next < t_ratio_end) {
+        t_ratio_end
+    } else {
+        next
+    }
+}
+
 fn validate_ratios(
     resample_ratio: f64,
     max_resample_ratio_relative: f64,
@@ -313,7 +323,7 @@ where
         match self.interpolation {
             PolynomialDegree::Septic => {
                 while idx < end_idx as f64 {
-                    t_ratio += t_ratio_increment;
+                    t_ratio = ramp_step(t_ratio, t_ratio_increment, t_ratio_end);
                     idx += t_ratio;
                     let idx_floor = idx.floor();
                     let start_idx = idx_floor as isize - 3;
@@ -338,7 +348,7 @@ where
             }
             PolynomialDegree::Quintic => {
                 while idx < end_idx as f64 {
-                    t_ratio += t_ratio_increment;
+                    t_ratio = ramp_step(t_ratio, t_ratio_increment, t_ratio_end);
                     idx += t_ratio;
                     let idx_floor = idx.floor();
                     let start_idx = idx_floor as isize - 2;
@@ -363,7 +373,7 @@ where
             }
             PolynomialDegree::Cubic => {
                 while idx < end_idx as f64 {
-                    t_ratio += t_ratio_increment;
+                    t_ratio = ramp_step(t_ratio, t_ratio_increment, t_ratio_end);
                     idx += t_ratio;
                     let idx_floor = idx.floor();
                     let start_idx = idx_floor as isize - 1;
@@ -388,7 +398,7 @@ where
             }
             PolynomialDegree::Linear => {
                 while idx < end_idx as f64 {
-                    t_ratio += t_ratio_increment;
+                    t_ratio = ramp_step(t_ratio, t_ratio_increment, t_ratio_end);
                     idx += t_ratio;
                     let idx_floor = idx.floor();
                     let start_idx = idx_floor as isize;
@@ -413,7 +423,7 @@ where
             }
             PolynomialDegree::Nearest => {
                 while idx < end_idx as f64 {
-                    t_ratio += t_ratio_increment;
+                    t_ratio = ramp_step(t_ratio, t_ratio_increment, t_ratio_end);
                     idx += t_ratio;
                     let start_idx = idx.floor() as isize;
                     for (chan, active) in self.channel_mask.iter().enumerate() {
